@@ -24,6 +24,11 @@ HT = 'io_loop::heartbeat_timers::'
 
 
 def run(ctx):
+    _run_main6(ctx)
+    _round6(ctx)
+
+
+def _run_main6(ctx):
     with ctx.rule('R17.1', 'intervals: tx = h, rx = 2h, from the negotiated heartbeat; nothing when 0', floor=6) as r:
         rows = P.table(ctx, HT + 'RxTxHeartbeat::new', ['timer', 'interval'])
         site = ctx.site(HT + 'RxTxHeartbeat::new')
@@ -128,3 +133,15 @@ def run(ctx):
             r.check('still-running', run_[0].value_str() == 'heartbeats::HeartbeatState::StillRunning' and 'self.timeout = mio_extras::timer::Timer::set_timeout(timer, (self.interval - %s), self.val)' % EL in run_[0].effects, site, built=run_[0].row(),
                     why='the remaining time since the last activity')
             r.check('old-timeout-cancelled', all(x.effects[0] == 'mio_extras::timer::Timer::cancel_timeout(timer, self.timeout)' for x in rows), site)
+
+
+def _round6(ctx):
+    """Rules that are necessary conditions of this property too (found by seeding round 6)."""
+    from rules import arms as A
+    with ctx.rule('R17.6', 'once started the timers run for the rest of the connection: nothing stops or drops them', floor=2) as r:
+        A.unique_callers(ctx, r, 'cancel_timeout:callers', 'mio_extras::timer::Timer::cancel_timeout', ['heartbeats::Heartbeat::fire'],
+                         why='a timeout is cancelled only to be set again in the same call (fire)')
+        w = A.field_writers(ctx, 'io_loop::heartbeat_timers::HeartbeatTimers', 'heartbeats')
+        HT_ = 'io_loop::heartbeat_timers::HeartbeatTimers::'
+        r.eq('heartbeats:writers', sorted(w), sorted(HT_ + n for n in ('start', 'record_rx_activity', 'record_tx_activity', 'fire_rx', 'fire_tx')), None,
+             why='the pair of timers is installed by start() and otherwise only ticked (record_*_activity, fire_*): taking or replacing it would end liveness checking')
